@@ -233,6 +233,20 @@ def directiveNamesNotReserved (ts : TypeSystem) : Bool := ts.directives.all fun 
 def enumValueNamesNotReserved (ts : TypeSystem) : Bool :=
   ts.types.all fun d => d.kind != .enum || d.enumValues.all fun v => !reserved v.name
 
+/-- the root operation type of `op` is an object type — for EVERY `op: T` entry of the schema definition
+    and its extensions, and, without a schema definition, for the type with the default name `dflt` when
+    no entry names the operation (an undeclared type is `rootsExist`'s business, not this clause's) -/
+def rootIsObject (sd : SchemaDoc) (ts : TypeSystem) (op : Bytes) (dflt : Name) : Bool :=
+  let isObj := fun (n : Name) => match ts.type? n with | some d => d.kind == .object | none => true
+  let entries := (ts.schemaDefs.flatMap (·.opTypes)).filter (·.op == op)
+  entries.all (fun o => isObj o.type) && (!(entries.isEmpty && sd.schema.isEmpty) || isObj dflt)
+
+/-- S: root operation types are object types (GraphQL §3.3.1), declared and inferred ones alike -/
+def rootTypesAreObjectsDoc (sd : SchemaDoc) : Bool :=
+  let ts := TypeSystem.ofDoc sd
+  rootIsObject sd ts (str "query") (str "Query") && rootIsObject sd ts (str "mutation") (str "Mutation") &&
+  rootIsObject sd ts (str "subscription") (str "Subscription")
+
 /- ------------------------------------------------------------------ E-clauses (loader-specific) -/
 
 /-- E: at most one `schema` definition -/
@@ -289,7 +303,7 @@ def clauses (sd : SchemaDoc) : List (String × Bool) :=
     ("E.singleSchemaDef", singleSchemaDef sd), ("E.extensionKindsMatch", extensionKindsMatch sd),
     ("E.enumValuesNotLiterals", enumValuesNotLiterals ts), ("E.directiveArgsDeclared", directiveArgsDeclared ts),
     ("E.noSelfReference", noSelfReference ts), ("E.appliedNamesNotReserved", appliedNamesNotReserved ts),
-    ("E.rootOperationTypesOnce", rootOperationTypesOnce sd) ]
+    ("E.rootOperationTypesOnce", rootOperationTypesOnce sd), ("S.rootTypesAreObjects", rootTypesAreObjectsDoc sd) ]
 
 def wfB (sd : SchemaDoc) : Bool := (clauses sd).all (·.2)
 
@@ -321,16 +335,17 @@ structure WellFormed (sd : SchemaDoc) : Prop where
   noSelfReference : noSelfReference (.ofDoc sd) = true
   appliedNamesNotReserved : appliedNamesNotReserved (.ofDoc sd) = true
   rootOperationTypesOnce : rootOperationTypesOnce sd = true
+  rootTypesAreObjects : rootTypesAreObjectsDoc sd = true
 
 theorem wfB_iff (sd : SchemaDoc) : wfB sd = true ↔ WellFormed sd := by
   constructor
   · intro h
     simp only [wfB, clauses, List.all_cons, List.all_nil, Bool.and_true, Bool.and_eq_true] at h
-    obtain ⟨h1, h2, h3, h4, h5, h6, h7, h8, h9, h10, h11, h12, h13, h14, h15, h16, h17, h18, h19, h20, h21, h22, h23, h24, h25, h26⟩ := h
-    exact ⟨h1, h2, h3, h4, h5, h6, h7, h8, h9, h10, h11, h12, h13, h14, h15, h16, h17, h18, h19, h20, h21, h22, h23, h24, h25, h26⟩
-  · intro ⟨h1, h2, h3, h4, h5, h6, h7, h8, h9, h10, h11, h12, h13, h14, h15, h16, h17, h18, h19, h20, h21, h22, h23, h24, h25, h26⟩
+    obtain ⟨h1, h2, h3, h4, h5, h6, h7, h8, h9, h10, h11, h12, h13, h14, h15, h16, h17, h18, h19, h20, h21, h22, h23, h24, h25, h26, h27⟩ := h
+    exact ⟨h1, h2, h3, h4, h5, h6, h7, h8, h9, h10, h11, h12, h13, h14, h15, h16, h17, h18, h19, h20, h21, h22, h23, h24, h25, h26, h27⟩
+  · intro ⟨h1, h2, h3, h4, h5, h6, h7, h8, h9, h10, h11, h12, h13, h14, h15, h16, h17, h18, h19, h20, h21, h22, h23, h24, h25, h26, h27⟩
     simp only [wfB, clauses, List.all_cons, List.all_nil, Bool.and_true, Bool.and_eq_true]
-    exact ⟨h1, h2, h3, h4, h5, h6, h7, h8, h9, h10, h11, h12, h13, h14, h15, h16, h17, h18, h19, h20, h21, h22, h23, h24, h25, h26⟩
+    exact ⟨h1, h2, h3, h4, h5, h6, h7, h8, h9, h10, h11, h12, h13, h14, h15, h16, h17, h18, h19, h20, h21, h22, h23, h24, h25, h26, h27⟩
 
 instance (sd : SchemaDoc) : Decidable (WellFormed sd) := decidable_of_iff _ (wfB_iff sd)
 
@@ -528,9 +543,9 @@ def introspectionFieldsB (s : Schema) : Bool :=
 
 def IntrospectionFields (s : Schema) : Prop := introspectionFieldsB s = true
 
-/-- the root operation types are object types (GraphQL §3.3.1).  The loader does NOT enforce this
-    (`input Query { … }` becomes the query root and receives `__schema`/`__type`); the clause is judged
-    on the real loader's output and is a recorded finding, not part of `Closed`. -/
+/-- the root operation types of a LOADED schema are object types (GraphQL §3.3.1).  Enforced by the loader
+    since the repair "a root operation type must be an object type" (`loaded_rootTypesAreObjects`); still
+    judged directly on the real loader's output.  The clause of `WellFormed` is `rootTypesAreObjectsDoc`. -/
 def rootTypesAreObjects (s : Schema) : Bool :=
   [s.query, s.mutation, s.subscription].all fun r =>
     match r with
